@@ -1,6 +1,8 @@
 package main
 
 import (
+	"bytes"
+	"encoding/json"
 	"fmt"
 	"math/big"
 
@@ -594,5 +596,92 @@ func init() {
 	b05 := plans["C05"]
 	plans["C05"] = func() []planItem {
 		return append(b05(), planItem{register(worldScenario("C05", specChainPreviews, chainOracle, previewOracle)), 2, 3})
+	}
+}
+
+// the engine is closed while writes are in flight: what was not persisted must not be acknowledged (or published)
+var specCloseInFlight = worldSpec{Name: "close-in-flight", Seed: seedA100, GracefulClose: true,
+	Gen1: []reqSpec{create("c1", 5, "@world", "@b"), {Name: "m1", Kind: "savemeta", TargetType: ledger.MetaTargetTypeAccount, TargetID: "c"}, {Name: "r0", Kind: "revert", TxID: 0}}}
+
+func init() {
+	b06, b16 := plans["C06"], plans["C16"]
+	plans["C06"] = func() []planItem {
+		return append(b06(), planItem{register(worldScenario("C06", specCloseInFlight, ackOracle)), 2, 3})
+	}
+	plans["C16"] = func() []planItem {
+		return append(b16(), planItem{register(worldScenario("C16", specCloseInFlight, eventOracle)), 2, 3})
+	}
+}
+
+// C11: a refused duplicate changes nothing - in particular it consumes no transaction id (the next commit follows on)
+var specRefThenPlain = worldSpec{Name: "ref-duplicate-then-plain", Crash: true,
+	Gen1: []reqSpec{{Name: "c1", Kind: "create", Script: sendScript(5, "@world", "@b"), Ref: "r"}, {Name: "c2", Kind: "create", Script: sendScript(5, "@world", "@c"), Ref: "r"}, create("c3", 5, "@world", "@d")},
+	Gen2: []reqSpec{{Name: "c4", Kind: "create", Script: sendScript(5, "@world", "@e"), Ref: "r"}, create("c5", 5, "@world", "@f")}}
+
+// C02: an account already deeper in the red than the overdraft a script grants (after a forced revert, say)
+var specDeepRed = worldSpec{Name: "already-below-overdraft",
+	Seed: func(st *memstore.Store) {
+		st.Seed(ledger.NewTransactionLog(ledger.NewTransaction().WithPostings(post("bank", "gone", 100)).WithID(big.NewInt(0)), nil))
+	},
+	Gen1: []reqSpec{{Name: "s1", Kind: "create", Overdraft: map[string]string{"bank": "50"},
+		Script: "send [X 10] (\n  source = {\n    @bank\n    @world\n  }\n  destination = @x\n)\nsend [X 50] (\n  source = @bank allowing overdraft up to [X 50]\n  destination = @y\n)\n"},
+		{Name: "s2", Kind: "create", Overdraft: map[string]string{"bank": "50"}, Script: sendScript(20, "@bank allowing overdraft up to [X 50]", "@z")}}}
+
+func init() {
+	b11, b02 := plans["C11"], plans["C02"]
+	plans["C11"] = func() []planItem {
+		items := b11()
+		return append(items, planItem{register(worldScenario("C11", specRefThenPlain, refOracle, chainOracle)), 2, 3})
+	}
+	plans["C02"] = func() []planItem {
+		return append(b02(), planItem{register(worldScenario("C02", specDeepRed, spendOracle)), 2, 3})
+	}
+}
+
+// roundTripOracle (C13, on what a running engine persisted under faults and crashes): every stored entry, read back through
+// the JSON codec, re-hashed over the previous STORED hash, gives its stored hash; ids follow on. An engine whose in-memory
+// head runs ahead of the store (an entry it chained but never wrote) breaks exactly one link here.
+func roundTripOracle(w *worldRun) (string, string) {
+	if v, k := chainOracle(w); v != "" {
+		return v, k
+	}
+	var prev *ledger.ChainedLog
+	for i, l := range w.Store.Snapshot() {
+		raw, err := json.Marshal(l)
+		if err != nil {
+			return fmt.Sprintf("entry %d cannot be written as JSON: %v", i, err), "rt-marshal"
+		}
+		back := &ledger.ChainedLog{}
+		if err := json.Unmarshal(raw, back); err != nil {
+			return fmt.Sprintf("entry %d cannot be read back: %v (%s)", i, err, raw), "rt-unmarshal"
+		}
+		if !bytes.Equal(memstore.SpecHash(prev, back), l.Hash) {
+			return fmt.Sprintf("entry %d read back and re-hashed over the previous stored hash does not give its stored hash (%s) [%s]", i, raw, w.digest()), "rt-hash"
+		}
+		prev = l
+	}
+	return "", ""
+}
+
+var specFaultThenWrites = worldSpec{Name: "fault-then-writes", FaultInsert: true,
+	Seed: seedTxs(ledger.Postings{post("world", "a", 10)}),
+	Gen1: []reqSpec{create("c1", 5, "@world", "@a"), create("c2", 5, "@world", "@b"), {Name: "r0", Kind: "revert", TxID: 0}},
+	Gen2: []reqSpec{create("c3", 5, "@world", "@a"), {Name: "m1", Kind: "savemeta", TargetType: ledger.MetaTargetTypeAccount, TargetID: "c"}},
+}
+
+func init() {
+	plans["C13"] = func() []planItem {
+		return []planItem{
+			{register(worldScenario("C13", specFaultThenWrites, roundTripOracle)), 2, 3},
+			{register(worldScenario("C13", specFaultInsert, roundTripOracle)), 2, 3},
+			{register(worldScenario("C13", specMixed3, roundTripOracle)), 1, 2},
+			{register(worldScenario("C13", specStoreDown, roundTripOracle)), 1, 2},
+		}
+	}
+	b05 := plans["C05"]
+	plans["C05"] = func() []planItem {
+		return append(b05(),
+			planItem{register(worldScenario("C05", specFaultInsert, chainOracle)), 2, 3},
+			planItem{register(worldScenario("C05", specFaultThenWrites, chainOracle)), 2, 3})
 	}
 }
